@@ -1007,6 +1007,21 @@ func (e *Env) call(x *ast.CallExpr) *Val {
 	case "sllen":
 		// sllen(g): length of a slice-sorted ghost value
 		return &Val{T: "(sl_len " + argv(0).T + ")", Ty: intT}
+	case "isfn":
+		// isfn(x, T, "pkg.(*Recv).name$1"): the interface value x holds, as a T, exactly that function (a closure of it)
+		v := argv(0)
+		t := e.typeExpr(x.Args[1])
+		lit, ok := x.Args[2].(*ast.BasicLit)
+		if t == nil || !ok {
+			return e.errorf("isfn(x, FuncType, \"function key\")")
+		}
+		key, _ := strconv.Unquote(lit.Value)
+		f := fx.eng.funcs[key]
+		if f == nil {
+			return e.errorf("isfn: no function %s", key)
+		}
+		iv := fx.makeIface(e.st, &Val{T: fx.funcRef(f), Ty: t}, types.NewInterfaceType(nil, nil))
+		return &Val{T: "(= " + v.T + " " + iv.T + ")", Ty: boolT}
 	case "arrslice":
 		// arrslice(p): the slice p[:] of the heap array p points to (the view code gets by slicing it)
 		v := argv(0)
